@@ -3320,6 +3320,20 @@ Box<ITV>
     // can only use the non-relational constraints, we find the
     // maximum/minimum values `ub_expr' and `lb_expr' obtain with the
     // box and use these instead of the `ub-expr' and `lb-expr'.
+    // With a negative denominator, `lb_expr/denominator' is
+    // `(-lb_expr)/(-denominator)', and the same for `ub_expr':
+    // work with a positive denominator, so that the lower bound of the
+    // image is the minimum of the (sign-corrected) lower bound expression
+    // and the upper bound is the maximum of the upper bound expression.
+    Linear_Expression pos_lb_expr(lb_expr);
+    Linear_Expression pos_ub_expr(ub_expr);
+    PPL_DIRTY_TEMP_COEFFICIENT(pos_denominator);
+    pos_denominator = denominator;
+    if (denominator < 0) {
+      neg_assign(pos_lb_expr);
+      neg_assign(pos_ub_expr);
+      neg_assign(pos_denominator);
+    }
     PPL_DIRTY_TEMP_COEFFICIENT(max_numer);
     PPL_DIRTY_TEMP_COEFFICIENT(max_denom);
     bool max_included;
@@ -3327,12 +3341,12 @@ Box<ITV>
     PPL_DIRTY_TEMP_COEFFICIENT(min_denom);
     bool min_included;
     ITV& seq_v = seq[var.id()];
-    if (maximize(ub_expr, max_numer, max_denom, max_included)) {
-      if (minimize(lb_expr, min_numer, min_denom, min_included)) {
+    if (maximize(pos_ub_expr, max_numer, max_denom, max_included)) {
+      if (minimize(pos_lb_expr, min_numer, min_denom, min_included)) {
         // The `ub_expr' has a maximum value and the `lb_expr'
         // has a minimum value for the box.
         // Set the bounds for `var' using the minimum for `lb_expr'.
-        min_denom *= denominator;
+        min_denom *= pos_denominator;
         PPL_DIRTY_TEMP(mpq_class, q1);
         PPL_DIRTY_TEMP(mpq_class, q2);
         assign_r(q1.get_num(), min_numer, ROUND_NOT_NEEDED);
@@ -3340,12 +3354,12 @@ Box<ITV>
         q1.canonicalize();
         // Now make the maximum of lb_expr the upper bound.  If the
         // maximum is not at a box point, then inequality is strict.
-        max_denom *= denominator;
+        max_denom *= pos_denominator;
         assign_r(q2.get_num(), max_numer, ROUND_NOT_NEEDED);
         assign_r(q2.get_den(), max_denom, ROUND_NOT_NEEDED);
         q2.canonicalize();
 
-        if (denominator > 0) {
+        if (pos_denominator > 0) {
           Relation_Symbol gr = min_included ? GREATER_OR_EQUAL : GREATER_THAN;
           Relation_Symbol lr = max_included ? LESS_OR_EQUAL : LESS_THAN;
           seq_v.build(i_constraint(gr, q1), i_constraint(lr, q2));
@@ -3361,27 +3375,27 @@ Box<ITV>
         // has no minimum value for the box.
         // Set the bounds for `var' using the maximum for `lb_expr'.
         PPL_DIRTY_TEMP(mpq_class, q);
-        max_denom *= denominator;
+        max_denom *= pos_denominator;
         assign_r(q.get_num(), max_numer, ROUND_NOT_NEEDED);
         assign_r(q.get_den(), max_denom, ROUND_NOT_NEEDED);
         q.canonicalize();
-        Relation_Symbol rel = (denominator > 0)
+        Relation_Symbol rel = (pos_denominator > 0)
           ? (max_included ? LESS_OR_EQUAL : LESS_THAN)
           : (max_included ? GREATER_OR_EQUAL : GREATER_THAN);
         seq_v.build(i_constraint(rel, q));
       }
     }
-    else if (minimize(lb_expr, min_numer, min_denom, min_included)) {
+    else if (minimize(pos_lb_expr, min_numer, min_denom, min_included)) {
         // The `ub_expr' has no maximum value but the `lb_expr'
         // has a minimum value for the box.
         // Set the bounds for `var' using the minimum for `lb_expr'.
-        min_denom *= denominator;
+        min_denom *= pos_denominator;
         PPL_DIRTY_TEMP(mpq_class, q);
         assign_r(q.get_num(), min_numer, ROUND_NOT_NEEDED);
         assign_r(q.get_den(), min_denom, ROUND_NOT_NEEDED);
         q.canonicalize();
 
-        Relation_Symbol rel = (denominator > 0)
+        Relation_Symbol rel = (pos_denominator > 0)
           ? (min_included ? GREATER_OR_EQUAL : GREATER_THAN)
           : (min_included ? LESS_OR_EQUAL : LESS_THAN);
         seq_v.build(i_constraint(rel, q));
